@@ -9,7 +9,7 @@ Not decided: regex semantics.
 import ast
 
 from ..model import dotted, unparse, norm, walk_no_nested, loop_exits, loop_of
-from ..rulelib import Ctx, nodes_calling, reaching_defs, value_assigned, short
+from ..rulelib import Ctx, nodes_calling, reaching_defs, value_assigned, short, ValueNumbers
 from .c05 import _yields
 
 
@@ -44,12 +44,18 @@ def run(check):
     else:
       lp = loops[0]
       rv = lp.owner.target.id if isinstance(lp.owner.target, ast.Name) else None
+      vn = ValueNumbers(cx, gd)
+      RV = ('elem', ('attr', ('param', gd.params[0]), 'rules'))      # the rule of the current iteration, whatever it is called
+
+      def is_rv(e, at):
+        return vn.term(e, at) == RV
       matched = g.test_edges(lambda pol, t, n: pol == 'T' and isinstance(t, ast.Call) and isinstance(t.func, ast.Attribute) and
-                             t.func.attr == 'matches' and dotted(t.func.value) == rv)
+                             t.func.attr == 'matches' and is_rv(t.func.value, n))
       if not matched:
         r_f.cannot_decide('`rule.matches(key)` test not recognised')
       def cont_true(a, lab, b):
-        return isinstance(lab, tuple) and lab[0] == 'T' and (dotted(lab[1]) or '') == '%s.continue_matching' % rv
+        return isinstance(lab, tuple) and lab[0] == 'T' and isinstance(lab[1], ast.Attribute) and \
+          lab[1].attr == 'continue_matching' and is_rv(lab[1].value, a)
       for (a, lab, b) in matched:
         back = lp in g.reach([b], removed_edge=cont_true, normal_only=True)
         if back:
@@ -59,8 +65,8 @@ def run(check):
         else:
           r_f.ok('matched rule: next rule only if rule.continue_matching', gd.loc(a.ast))
         # a matched rule's destinations are all offered (no break inside the destination loop)
-        inner = [n for n in g.nodes if n.kind == 'loop' and isinstance(n.owner, ast.For) and
-                 (dotted(n.owner.iter) or '') == '%s.destinations' % rv]
+        inner = [n for n in g.nodes if n.kind == 'loop' and isinstance(n.owner, ast.For) and isinstance(n.owner.iter, ast.Attribute) and
+                 n.owner.iter.attr == 'destinations' and is_rv(n.owner.iter.value, n)]
         for il in inner:
           early = loop_exits(il.owner)
           if early:
@@ -118,8 +124,16 @@ def run(check):
         return False
       vals = [value_assigned(d, a.id) for d in reaching_defs(g, a.id, nodes[0]) if d is not g.entry]
       # assigned a RelayRule whose condition is the always-true lambda (the section marked `default`)
-      return any(isinstance(v, ast.Call) and dotted(v.func) == 'RelayRule' and any(
-        isinstance(x, ast.Lambda) and isinstance(x.body, ast.Constant) and x.body.value is True for x in ast.walk(v)) for v in vals)
+      def always_true(x):
+        if isinstance(x, ast.Lambda):
+          return isinstance(x.body, ast.Constant) and x.body.value is True
+        if isinstance(x, ast.Name) and x.id in lr.module.functions:
+          fs = lr.module.functions[x.id]
+          body = [st for st in fs[0].node.body if not (isinstance(st, ast.Expr) and isinstance(st.value, ast.Constant))]
+          return len(fs) == 1 and len(body) == 1 and isinstance(body[0], ast.Return) and \
+            isinstance(body[0].value, ast.Constant) and body[0].value.value is True
+        return False
+      return any(isinstance(v, ast.Call) and dotted(v.func) == 'RelayRule' and any(always_true(x) for x in ast.walk(v)) for v in vals)
     if in_loop and after and all(is_default_var(c) for c in after):
       r_o.ok('pattern rules appended in section order, default rule after the loop', lr.loc(after[0]))
     else:
@@ -177,7 +191,14 @@ def run(check):
     gam = nodes_calling(g, lambda c: isinstance(c.func, ast.Attribute) and c.func.attr == 'get_aggregate_metric')
     rules_loop = [n for n in g.nodes if n.kind == 'loop' and isinstance(n.owner, ast.For) and
                   (dotted(n.owner.iter) or '').endswith('.rules')]
-    if gam and rules_loop and not loop_exits(rules_loop[0].owner):
+    # ... or a comprehension over the rules without a filter in front of the call
+    comp_all = [x for x in walk_no_nested(ag.node, include_self=False) if isinstance(x, (ast.ListComp, ast.SetComp, ast.GeneratorExp)) and
+                len(x.generators) == 1 and (dotted(x.generators[0].iter) or '').endswith('.rules') and not x.generators[0].ifs and
+                isinstance(x.elt, ast.Call) and isinstance(x.elt.func, ast.Attribute) and x.elt.func.attr == 'get_aggregate_metric' and
+                isinstance(x.generators[0].target, ast.Name) and dotted(x.elt.func.value) == x.generators[0].target.id]
+    if comp_all and gam:
+      r_a.ok('every aggregation rule is asked for the aggregate name (comprehension over all rules)', ag.loc(comp_all[0]))
+    elif gam and rules_loop and not loop_exits(rules_loop[0].owner):
       r_a.ok('every aggregation rule is asked for the aggregate name (no early exit)', ag.loc(gam[0].ast))
     else:
       r_a.violate('not every rule consulted', ag, (gam or [None])[0].ast if gam else None, 'the loop over the aggregation rules can '
@@ -187,6 +208,10 @@ def run(check):
     appends = [n for n in g.nodes if n.kind == 'stmt' and any(
       isinstance(c.func, ast.Attribute) and c.func.attr in ('append', 'add') and c.args and isinstance(c.args[0], ast.Name) and
       c.args[0].id == key for c in g.calls(n))]
+    # ... or the collection of names is replaced by [key] as a whole
+    appends += [n for n in g.nodes if n.kind == 'stmt' and isinstance(n.ast, ast.Assign) and
+                isinstance(n.ast.value, (ast.List, ast.Tuple, ast.Set)) and
+                any(isinstance(e, ast.Name) and e.id == key for e in n.ast.value.elts)]
     for n in appends:
       def none_matched(a, lab, b):
         if not isinstance(lab, tuple):
@@ -199,6 +224,14 @@ def run(check):
       else:
         r_a.ok('own name hashed only when no rule matched', ag.loc(n.ast))
     # all replicas of every aggregate are returned
+    bulk = {}      # hash-router call handed whole to <collection>.update()/extend(): every destination is kept
+    for hc in hr_calls:
+      for c in g.calls(hc):
+        if isinstance(c.func, ast.Attribute) and c.func.attr in ('update', 'extend') and c.args and any(
+            isinstance(y, ast.Call) and isinstance(y.func, ast.Attribute) and y.func.attr == 'getDestinations' and
+            (dotted(y.func.value) or '').endswith('hash_router') for y in [c.args[0]]):
+          bulk[dotted(c.func.value)] = c
+          r_a.ok('every hash destination of an aggregate name is kept (%s.%s(<all of them>))' % (dotted(c.func.value), c.func.attr), ag.loc(c))
     for hc in hr_calls:
       lps = [n for n in g.nodes if n.kind == 'loop' and isinstance(n.owner, ast.For) and any(x is c for c in g.calls(hc) for x in ast.walk(n.owner.iter))]
       for lp in lps:
@@ -226,6 +259,7 @@ def run(check):
     direct_yield = any(isinstance(x, ast.Yield) for hc in hr_calls for n in g.nodes if n.kind == 'loop' and isinstance(n.owner, ast.For)
                        and any(y is c for c in g.calls(hc) for y in ast.walk(n.owner.iter))
                        for x in walk_no_nested(n.owner, include_self=False))
+    colls |= set(bulk)
     for cname in (colls if not direct_yield else ()):
       outl = [n for n in g.nodes if n.kind == 'loop' and isinstance(n.owner, ast.For) and dotted(n.owner.iter) == cname]
       okc = False
